@@ -83,7 +83,9 @@ pub fn raw_dump(eg: &EGraph) -> RawDump {
         let mut rows = vec![];
         if is_ctor {
             let _ = eg.constructor_enodes(&name, |e| {
-                rows.push(RawRow { args: e.children.iter().zip(ft.input.iter()).map(|(v, s)| conv(eg, s, *v)).collect(), out: conv(eg, &ft.output, e.eclass), sub: e.subsumed });
+                // a relation is a constructor into an internal sort (`@…`): its output id is not observable and never referenced
+                let out = if ft.output.name().starts_with('@') { V::Unit } else { conv(eg, &ft.output, e.eclass) };
+                rows.push(RawRow { args: e.children.iter().zip(ft.input.iter()).map(|(v, s)| conv(eg, s, *v)).collect(), out, sub: e.subsumed });
             });
         } else {
             let _ = eg.function_entries(&name, |e| {
